@@ -69,3 +69,12 @@ Example C05_example :
   valid mac 219 120 [10; 0; 0; 1] id = true /\ valid mac 220 120 [10; 0; 0; 1] id = false
   /\ valid mac 100 120 [10; 0; 0; 2] id = false.
 Proof. cbv zeta. repeat split; vm_compute; reflexivity. Qed.
+
+(* the validator's whole-second clock is refreshed by the socket worker every 256th poll iteration
+   (mio) or on a 5-second pulse (io_uring) - regenerated from the sources: an id lives at most
+   max_connection_age seconds of THAT clock, i.e. up to one refresh period longer in real time *)
+From Aquatic Require Import Consts.
+Theorem C05_clock_refresh_cadence :
+  (0 < udp_mio_clock_refresh_polls <= 256)%N /\ (0 < udp_uring_clock_pulse_secs <= 5)%N.
+Proof. vm_compute. repeat split; congruence. Qed.
+Print Assumptions C05_clock_refresh_cadence.
